@@ -5,13 +5,16 @@ import os, sys, json, subprocess, re
 VERIF = os.path.dirname(os.path.dirname(os.path.abspath(__file__)))
 SEEDS = {
  'C01a': ('C01', 'back chain_row: a DEFERRED result no longer stops the chain', 'an earlier-tried row (or the forwarding row of a deferring submachine) answers DEFERRED while a later row of the same cell is enabled'),
+ 'C01b': ('C01', 'backmp11 do_process_event: the sm-internal table is consulted only if the region result is exactly 0 (was: not TRUE/DEFERRED)', 'machine with an sm-level internal row for E while an active region state has a row for E whose guard rejects'),
  'C02a': ('C08', 'back do_entry: region initialisation from history moved into the plain-entry variant only', 'explicit entry / fork / entry point into a multi-region submachine after a previous visit moved an untargeted region'),
  'C03a': ('C08', 'backmp11 history_impl: remembered configuration starts as all zeros instead of the initial state ids', 'first-ever entry taken under history in a machine with >= 2 regions'),
  'C04a': ('C04', 'backmp11 process_event_internal: the event pool is drained only after a direct call', 'event forwarded to a submachine whose behaviour raises an event on the submachine'),
+ 'C04b': ('C04', 'back/back11 do_process_helper: the catch handler clears m_event_processing before calling exception_caught', 'exception_caught submits an event (and the failing step queued one before): dispatched re-entrantly inside the handler, order inverted'),
  'C05a': ('C05', 'backmp11 is_event_deferred_visitor: |= became =', 'two active deferring states, the later-visited one with a conditional is_event_deferred returning false'),
  'C05b': ('C05', 'back/back11 do_handle_prio_msg_queue_deferred_queue: new deferral cycle only if handled == HANDLED_TRUE (was: TRUE bit set)', 'two regions: one takes the event and leaves the deferring state while the sibling guard-rejects it (result 3)'),
  'C06a': ('C06', 'back do_process_event: wrong De Morgan on the no_transition guard', 'process_event called directly on a contained submachine (or an enqueued unmatched event)'),
  'C07a': ('C07', 'back chain_row: bit test replaced by equality tests again', 'two-region submachine, one region takes while the sibling guard-rejects, outer row on the same event'),
+ 'C07b': ('C07', 'backmp11 favor_compile_time state_dispatch_table::dispatch: early return only if the submachine result equals TRUE or DEFERRED', 'submachine answers TRUE|GUARD_REJECT (one region takes, a sibling rejects) and the enclosing machine has a row on the submachine for the event'),
  'C08a': ('C08', 'ShallowHistoryImpl::history_exit: store guarded by a comparison against the wrong array', 'three entries of the submachine, region back in its initial state at the second exit'),
  'C09a': ('C09', 'back is_exit_state_active: scans nr_regions of the OUTER machine', 'exit point in the 2nd/3rd region of a submachine whose outer machine has fewer regions'),
  'C08b': ('C08', 'backmp11 history_impl<shallow_history>: the memory array is value-initialised instead of starting at the initial state ids (same idea as C03a, found independently)', 'first-ever entry through an event of the history list with a region whose initial state is not id 0'),
